@@ -3,6 +3,7 @@ package checks
 import (
 	"fmt"
 	"reflect"
+	"strings"
 	"unicode/utf8"
 
 	formula "github.com/aundis/formula"
@@ -203,8 +204,9 @@ func judgeRanges(text []byte) *eng.Fail {
 		return checkNode(text, o.src.Expression, 0)
 	}
 	if o.src == nil || len(o.src.Diagnostics) == 0 {
-		note("errors_without_diagnostic", 1)
-		return nil
+		// a syntax error is reported as pos(line, column) error(code) message: every rejection carries a diagnostic
+		outcome("err without diagnostic")
+		return eng.F("C15/error-without-position", "rejected with %q: no diagnostic, so no pos(line, column) error(code) locates the error", o.err.Error())
 	}
 	for i, d := range o.src.Diagnostics {
 		if d.Start < 0 || d.Length < 0 || d.Start+d.Length > len(text) {
@@ -312,6 +314,19 @@ func runC15(w *eng.W) {
 				do("break-joiners-reduced", b)
 			})
 		})
+	}
+	// string literals whose escapes are followed by every combination of hex and non-hex characters,
+	// closed and unclosed, alone and inside a formula: whatever the verdict, a rejection is positioned
+	escAlpha := []string{"0", "9", "a", "f", "g", "z", "A", "F", "G", "_", "'", "\\", "\n", " "}
+	for _, intro := range []string{"\\x", "\\u", "\\", "\\0", "\\e"} {
+		for l := 0; l <= 4; l++ {
+			seqsSharded(w, len(escAlpha), l, func(idx []int) {
+				body := intro + string(joinIdx(escAlpha, idx, ""))
+				for _, form := range []string{"'%s'", "'%s", "f('%s', 1) +", "\"%s\"\n+ b"} {
+					do("escape-forms", []byte(strings.Replace(form, "%s", body, 1)))
+				}
+			})
+		}
 	}
 	lookaheadForms(w, "lookahead-forms", do)
 	tokenSeqs(w, "full-seq", SigmaFull, 3, do)
